@@ -616,6 +616,10 @@ def check_c14(tier):
 # ================================================================================ C15 (long arcs)
 def check_c15(tier):
     sc = SolveCheck("C15", tier)
+    sc.proofs("C15u", ["C15_pooled_diagram_is_the_frontier_diagram", "C15_pooled_diagram_is_the_frontier_diagram_incl_cache_and_log",
+                       "C15_pooled_sequential_solver_is_the_frontier_solver", "C15_pooled_parallel_solver_is_the_frontier_solver",
+                       "C15_pooled_sequential_solver_returns_optimum", "C15_pooled_parallel_solver_returns_optimum", "C15_pooled_cutset_covers",
+                       "C15_without_the_premise_the_flavours_differ", "C15_dead_end_difference"])
     if not sc.build(): return sc.chk.finish()
     n = 60 * (1 if tier == "quick" else 24)
     insts = gen_instances(sc.rng, n, "longarc")
